@@ -526,6 +526,11 @@ G2_CASES = {
     "g2-below": ([0.5], [[1000, 20, 6, 3, 2, 2, 1]]),
     "two-freq": ([3.0, 0.25], [[500, 200, 90, 30, 8, 3, 2], [64, 32, 16, 8, 4, 2, 1]]),
 }
+G2_CASES_THOROUGH = {
+    "g2-last-bin": ([1.25], [[4000, 900, 400, 200, 120, 80, 60]]),
+    "g2-near-flat": ([7.0], [[12, 11, 10, 10, 10, 10, 9]]),
+    "three-freq": ([0.01, 40.0, 2.5], [[2000, 1000, 400, 100, 20, 4, 1], [300, 250, 200, 100, 50, 20, 10], [90, 70, 50, 30, 10, 5, 1]]),
+}
 
 
 class NPG(NPProxy):
@@ -537,7 +542,7 @@ def g2_fn(case):
     def fn(eng):
         S.set_engine(eng)
         g2, _ = _g2_block()
-        amax, counts = G2_CASES[case]
+        amax, counts = (G2_CASES.get(case) or G2_CASES_THOROUGH[case])
         LF, nb = len(amax), len(counts[0])
         base_A = np.array(amax)
         base_B = np.array([[a * (k + 1) / nb for k in range(nb)] for a in amax])
@@ -611,7 +616,7 @@ def jobs(tier, seed):
         out.append(H.Job("binify-explicit-%s" % right, job_binify, 2 if q else 3, 2, 1, right, True, split_depth=6, weight=300))
         if not q:
             out.append(H.Job("binify-auto-4-%s" % right, job_binify, 4, 3, 2, right, False, split_depth=8, weight=900))
-    for case in G2_CASES:
+    for case in list(G2_CASES) + ([] if q else list(G2_CASES_THOROUGH)):
         out.append(H.Job("g2-%s" % case, job_g2, case, weight=5))
     out.append(H.Job("dofde-4", job_dofde, 4, 3, split_depth=6, weight=200))
     if not q:
